@@ -377,7 +377,7 @@ def _quotient_paths(f, st, xn, yn):
                 for v in s["c"]:
                     v = f.deref(v)
                     if v["k"] == "var" and v.get("c") and is_rem(v["c"][-1]):
-                        rem.add(v.get("name") or f.text(v).split()[-1])
+                        rem.add(v.get("n") or v.get("name") or f.text(v).split()[-1])
                     elif v["k"] == "var":
                         raise _UnknownForm("local `%s` at line %s" % (f.text(v)[:30], v.get("l")))
             else:
@@ -1002,6 +1002,158 @@ def r11_9(ctx):
     ctx.floor(rid, n, 14 * 6 + 6 * 36 + 2 * 216, "operand class combinations interpreted")
 
 
+def r11_10(ctx):
+    rid = "R11.10"
+    ctx.rule(rid, "the unchecked unit step has room: round_lt_int_no_overflow / round_gt_int_no_overflow move the stored integer by one WITHOUT looking at the limits of the type (their checked siblings round_lt_int / round_gt_int classify the overflow). They may only follow a store that leaves room: on every path to the call the last write of `to` is a native quotient `x / y` or right shift `x >> n` of an operand (inexact, hence strictly smaller in magnitude than the operand) or the literal 0. After a conversion or any other callee wrote `to`, the value may sit on the limit and the step wraps (or lands on the encoding of an infinity or NaN) with a plain V_LT / V_GT")
+    fx = ctx.extract([F.driver_unit("all_headers.cc", file_re=r"checked_int_inlines\.hh")])
+    seen = set()
+    n = 0
+    for f in fx.functions:
+        if not f.flag("pattern") or (f.relfile, f.line) in seen or not f.cfg:
+            continue
+        seen.add((f.relfile, f.line))
+        calls = [c for c in f.calls() if f.call_name(c).lstrip("~") in ("round_lt_int_no_overflow", "round_gt_int_no_overflow")]
+        if not calls or f.name in ("round_lt_int", "round_gt_int"):
+            continue
+
+        def roomy(nod):
+            """a write of `to` that leaves room for a unit step"""
+            if nod["k"] != "assign":
+                return None
+            if f.text(f.deref(nod["c"][0])).strip() != "to":
+                return None
+            r = f.deref(nod["c"][1])
+            t = f.text(r).replace(" ", "")
+            if t == "0":
+                return True
+            for x in f.walk(r):
+                if x["k"] in ("binop", "ocall") and x.get("op") in ("/", ">>"):
+                    return True
+            return False
+
+        def other_write(nod):
+            """`to` handed to a callee as its destination (first argument)"""
+            if nod["k"] in ("call", "mcall") and f.call_name(nod).lstrip("~") not in ("round_lt_int_no_overflow", "round_gt_int_no_overflow"):
+                a = f.call_args(nod)
+                return bool(a) and f.text(f.deref(a[0])).strip() == "to"
+            return False
+        for c in calls:
+            n += 1
+            inst = "%s: %s (line %s)" % (f.name, f.call_name(c), c.get("l"))
+            # walk backwards over the CFG from the call: every path must meet a roomy write before any other write / the entry
+            bad = flow.must_precede(f, c, lambda nod: roomy(nod) is True)
+            blocked = None
+            if bad is None:
+                # a non-roomy write between the roomy one and the call?
+                for w in f.walk():
+                    if (roomy(w) is False or other_write(w)) and flow.reachable_between(f, w, lambda x: x is c, blocked=lambda x: roomy(x) is True):
+                        blocked = w
+                        break
+            if bad is None and blocked is None:
+                ctx.ok(rid, inst, f.where(c))
+            elif blocked is not None:
+                ctx.violation(rid, inst, f.where(c), "`to` was last written by `%s` (line %s), which can store a limit of the type: the unchecked step then wraps" % (f.text(blocked)[:50], blocked.get("l")))
+            else:
+                ctx.violation(rid, inst, f.where(c), "a path reaches the unchecked step without a native quotient, shift or 0 having been stored in `to` (%s): the value may sit on a limit of the type" % flow.render_path(f, bad))
+    ctx.floor(rid, n, 8, "unchecked unit steps")
+
+
+R1111_PAIRS = (("checked_mpz_inlines", "construct_mpz_float", "assign_mpz_float"),
+               ("checked_mpq_inlines", "construct_mpq_float", "assign_mpq_float"),
+               ("checked_ext_inlines", "construct_ext", "assign_ext"))
+# construct_mpz_base / construct_mpq_base have no assign_* twin of their own (the assignment goes through assign_exact)
+
+
+def _decision_skeleton(f):
+    """[(guards, terminal)] for every return of f in source order: the conditions of the enclosing ifs (negated for
+    else-arms, earlier early-returning ifs included as negated guards) and the returned expression, with locals
+    renamed by order of declaration and the construct_* spellings of a callee replaced by the assign_* ones."""
+    ren = {}
+    for v in f.walk():
+        if v["k"] == "var" and v.get("n"):
+            ren.setdefault(v["n"], "L%d" % len(ren))
+
+    def norm(e):
+        t = f.text(e).replace(" ", "")
+        t = re.sub(r"\bconstruct_special\b", "assign_special", t)
+        t = re.sub(r"\bconstruct\b", "assign", t)
+        for a, b in ren.items():
+            t = re.sub(r"\b%s\b" % re.escape(a), b, t)
+        return t
+    out = []
+
+    def always_returns(n):
+        n = f.deref(n)
+        if n is None:
+            return False
+        if n["k"] == "return":
+            return True
+        if n["k"] == "block":
+            return any(always_returns(c) for c in n["c"])
+        if n["k"] == "if":
+            return n["c"][4] is not None and always_returns(n["c"][3]) and always_returns(n["c"][4])
+        if n["k"] == "label":
+            return any(always_returns(c) for c in n.get("c", ()))
+        return False
+
+    def walk(n, guards):
+        n = f.deref(n)
+        if n is None:
+            return guards
+        k = n["k"]
+        if k == "block":
+            g = list(guards)
+            for c in n["c"]:
+                g = walk(c, g)
+            return guards
+        if k == "if":
+            cond = norm(n["c"][2])
+            walk(n["c"][3], guards + [cond])
+            if n["c"][4] is not None:
+                walk(n["c"][4], guards + ["!" + cond])
+            if always_returns(n["c"][3]) and n["c"][4] is None:
+                return guards + ["!" + cond]
+            return guards
+        if k == "return":
+            out.append((tuple(guards), norm(n["c"][0]) if n.get("c") else ""))
+            return guards
+        if k == "label":
+            for c in n.get("c", ()):
+                guards = walk(c, guards)
+            return guards
+        return guards
+    walk(f.ast, [])
+    return out
+
+
+def r11_11(ctx):
+    rid = "R11.11"
+    ctx.rule(rid, "a constructing conversion decides like its assigning twin: construct_X builds the destination in raw storage, assign_X overwrites an existing one; the conversion — which special value, which rounded integer, which relation is reported — is the same. For each pair the sequence of (guards, returned expression) is compared after renaming locals and replacing construct_special by assign_special: a guard or terminal present in one twin only is a case one of them decides differently (construct_mpz_float chose the correction from the sign of the source instead of the direction rint() rounded)")
+    fx = ctx.extract([F.driver_unit("all_headers.cc", file_re=r"(checked_mpz_inlines|checked_mpq_inlines|checked_ext_inlines)\.hh")])
+    by = {}
+    for f in fx.functions:
+        if f.flag("pattern"):
+            by.setdefault((os.path.basename(f.file).split(".")[0], f.name), f)
+    n = 0
+    for fil, a, b in R1111_PAIRS:
+        fa, fb = by.get((fil, a)), by.get((fil, b))
+        ctx.require(rid, fa is not None and fb is not None, "%s / %s not found in %s.hh" % (a, b, fil))
+        n += 1
+        sa, sb = _decision_skeleton(fa), _decision_skeleton(fb)
+        inst = "%s / %s" % (a, b)
+        if sa == sb:
+            ctx.ok(rid, inst, fa.where())
+            continue
+        k = 0
+        while k < min(len(sa), len(sb)) and sa[k] == sb[k]:
+            k += 1
+        da = sa[k] if k < len(sa) else None
+        db = sb[k] if k < len(sb) else None
+        show = lambda d: "nothing further" if d is None else "`return %s` under [%s]" % (d[1][:50], "; ".join(g[:40] for g in d[0][-3:]))
+        ctx.violation(rid, inst, fa.where(), "decision %d differs: %s has %s, %s has %s" % (k + 1, a, show(da), b, show(db)))
+    ctx.floor(rid, n, 3, "construct / assign pairs")
+
+
 def run(ctx):
     ctx.explanation = ("C11 discipline clauses: encodings and policies as compile-time witnesses (also with bounded coefficients), routing of every primitive's Result into the "
                        "policy, FPU rounding-mode pairing, and — thorough tier — a type-check of the whole library with bounded coefficients; the arithmetic of the primitives is not decided")
@@ -1017,5 +1169,7 @@ def run(ctx):
     r11_7(ctx)
     r11_8(ctx)
     r11_9(ctx)
+    r11_10(ctx)
+    r11_11(ctx)
     if ctx.tier == "thorough":
         r11_3(ctx)
